@@ -46,6 +46,10 @@ enum Fault {
     Fail,      // the call has no effect and returns Err
     Torn(u32), // put only: the first n/1000 of the bytes become the object, the call returns Err
     CorruptGet(u32), // get only: the call returns Ok with bit (n mod 8*len) flipped; the stored object stays intact
+    /// put / delete / rename only: the operation takes its full effect and the call still returns Err (the
+    /// acknowledgement is lost: a timeout after the store applied the request; a rename that is copy + delete and
+    /// fails in its second half looks the same for the destination)
+    LostAck,
 }
 
 /// Segment framing of the system under test (header and footer sizes), used to aim bit flips at an area.
@@ -126,6 +130,7 @@ fn fault_class(e: &Ev) -> String {
         Some(Fault::Fail) => format!("fail@{}", ev_class(e)),
         Some(Fault::Torn(_)) => format!("torn@{}", ev_class(e)),
         Some(Fault::CorruptGet(_)) => format!("corrupt-get@{}", ev_class(e)),
+        Some(Fault::LostAck) => format!("lost-ack@{}", ev_class(e)),
     }
 }
 
@@ -326,7 +331,7 @@ impl PlanStore {
     fn begin(&self, g: &mut Inner, op: &'static str, key: &str, to: &str) -> Option<Fault> {
         // a fault kind that does not apply to the operation it lands on is a clean failure
         let f = g.plan.get(&(g.log.len() as u64)).map(|f| match (op, f) {
-            ("put", Fault::Torn(_)) | ("get", Fault::CorruptGet(_)) => f.clone(),
+            ("put", Fault::Torn(_)) | ("get", Fault::CorruptGet(_)) | ("put" | "delete" | "rename", Fault::LostAck) => f.clone(),
             _ => Fault::Fail,
         });
         g.log.push(Ev { task: self.task, op, key: key.into(), to: to.into(), fault: f.clone(), data: vec![], written: None, applied: false, len: 0 });
@@ -356,7 +361,7 @@ impl ObjectStore for PlanStore {
             let mut g = self.inner.lock();
             let f = self.begin(&mut g, "put", key, "");
             let written = match &f {
-                None => Some(data.len()),
+                None | Some(Fault::LostAck) => Some(data.len()),
                 Some(Fault::Torn(pm)) => Some(torn_len(data.len(), *pm)),
                 Some(_) => None,
             };
@@ -400,11 +405,15 @@ impl ObjectStore for PlanStore {
         Box::pin(async move {
             self.enter().await;
             let mut g = self.inner.lock();
-            if self.begin(&mut g, "delete", key, "").is_some() {
+            let f = self.begin(&mut g, "delete", key, "");
+            if matches!(f, Some(Fault::Fail)) {
                 return Err(injected());
             }
             g.objs.remove(key);
             g.log.last_mut().expect("just pushed").applied = true;
+            if f.is_some() {
+                return Err(injected());
+            }
             Ok(())
         })
     }
@@ -428,13 +437,17 @@ impl ObjectStore for PlanStore {
         Box::pin(async move {
             self.enter().await;
             let mut g = self.inner.lock();
-            if self.begin(&mut g, "rename", from, to).is_some() {
+            let f = self.begin(&mut g, "rename", from, to);
+            if matches!(f, Some(Fault::Fail)) {
                 return Err(injected());
             }
             match g.objs.remove(from) {
                 Some(d) => {
                     g.objs.insert(to.to_string(), d);
                     g.log.last_mut().expect("just pushed").applied = true;
+                    if f.is_some() {
+                        return Err(injected());
+                    }
                     Ok(())
                 }
                 None => Err(IoError::new(ErrorKind::NotFound, format!("Source key not found: {}", from))),
@@ -958,6 +971,7 @@ async fn exec_case(rep: &mut Report, steps: &[Step], cfg: &XCfg, plan: &BTreeMap
         match e.fault {
             Some(Fault::Fail) => rep.count("faults_hit:clean_failure"),
             Some(Fault::Torn(_)) => rep.count("faults_hit:torn_put"),
+            Some(Fault::LostAck) => rep.count("faults_hit:lost_ack"),
             Some(Fault::CorruptGet(n)) if e.len > 0 => {
                 rep.count("fault:corrupt-get");
                 rep.count(&format!("fault:corrupt-get:{}", flip_area(&e.key, e.len, n)));
@@ -1246,6 +1260,9 @@ async fn crash_body(rep: &mut Report, args: &Args) {
             let mut kinds = vec![Fault::Fail];
             if ff.log[i].op == "put" {
                 kinds.extend([Fault::Torn(500), Fault::Torn(rng.gen_range(0..1000))]);
+            }
+            if matches!(ff.log[i].op, "put" | "delete" | "rename") {
+                kinds.push(Fault::LostAck);
             }
             if ff.log[i].op == "get" && ff.log[i].len > 0 && (corrupt_manifest || obj_class(&ff.log[i].key) == "segment") {
                 kinds.extend(corrupt_bits(&mut crng, &ff.log[i].key, ff.log[i].len, args.thorough()).into_iter().map(Fault::CorruptGet));
